@@ -7,6 +7,7 @@ package main
 
 import (
 	"bufio"
+	"bytes"
 	"encoding/json"
 	"fmt"
 	"math/rand"
@@ -430,7 +431,9 @@ func (g *gen) absorb(ev M) {
 	for _, e := range arr(obs, "evs") {
 		em := e.(M)
 		if em["e"] == "MessageSent" {
-			g.outbox = append(g.outbox, em["msg"].(M))
+			if bz, _ := json.Marshal(em["msg"]); !bytes.Contains(bz, []byte("-777")) && !bytes.Contains(bz, []byte(`"id":-1`)) {
+				g.outbox = append(g.outbox, em["msg"].(M)) // (values without a symbol cannot be re-concretised)
+			}
 		}
 	}
 	if m := getm(ev, "msg"); gets(m, "type") == "ReceiveMessage" {
@@ -477,6 +480,10 @@ func cmdDrive(tab *SymTab, bw *bufio.Writer, workers, n, depth int, seed int64) 
 					g.absorb(ev)
 				}
 				h := M{"id": id, "init": init, "initok": len(junk0) == 0 && sameState(gs, jsonRoundTrip(init)), "events": evs}
+				if !h["initok"].(bool) {
+					h["pre"] = fullState(gs, jsonRoundTrip(init))
+					h["junk0"] = toAny(junk0)
+				}
 				bz, err := json.Marshal(h)
 				if err != nil {
 					panic(err)
